@@ -33,6 +33,12 @@ inductive GetRes
   | ok (tag value : BitVec 64) (s : Bytes)    -- returned true
   deriving Repr, DecidableEq
 
+/-- the `tag` out-parameter after `get_entry` (untouched when the index was invalid) -/
+def GetRes.tagOr (prev : BitVec 64) : GetRes → BitVec 64
+  | .invalid => prev
+  | .nostr t _ => t
+  | .ok t _ _ => t
+
 namespace DynAcc
 
 /-- `elf_file.get_class()` -/
@@ -158,10 +164,7 @@ def numLoop : Nat → DynAcc → BitVec 64 → BitVec 64 → M (DynAcc × BitVec
   | fuel + 1, a, i, prev =>
     if dyn_num_loop i a.cache then do
       let (a', r) ← getEntryCore a a.cache i
-      let tag : BitVec 64 := match r with
-        | .invalid => prev            -- out-parameter untouched (never happens: i < entries_num)
-        | .nostr t _ => t
-        | .ok t _ _ => t
+      let tag := r.tagOr prev       -- invalid never happens here: i < entries_num
       if dyn_num_tag_is_null tag then pure (a', i) else numLoop fuel a' (i + 1) tag
     else pure (a, i)
 
